@@ -337,3 +337,63 @@ def prove_cells(mod, name, nargs, in_cells, out_cells, specs, alias=None, seed=0
             except (Undecided, KeyError) as e:
                 res.undecided.append(str(e)[:200])
     return res
+
+
+def prove_predicate(mod, name, nargs, in_cells, expr, seed=0, budget=6000):
+    """kernel-mode decision of a boolean routine against `expr(A) = 0 (mod p)` for all 64-bit representations:
+    in every abstract cell the routine returns a constant; a cell returning true must have expr in {k*p} at every
+    point (its interval is a single multiple of p), a cell returning false must exclude every multiple of p in reach
+    (emptiness by interval propagation, then Fourier-Motzkin).  Refutation only with a concrete witness."""
+    gc = kernel_globals(mod)
+    res = Outcome()
+    pres = [BOXES[ts] for (_, _, _, ts) in in_cells]
+    for boxes in itertools.product(*pres):
+        K = KInterp(mod, lane=0, summaries={}, globals_=gc, budget=budget)
+        c = Case()
+        st = St(c, {}, {})
+        ptrs = [KPtr('arg%d' % i, 0) for i in range(nargs)]
+        A = {}
+        for (ai, off, nm, ts), bx in zip(in_cells, boxes):
+            v = sym64(c, nm, bx, 0)
+            A[nm] = Poly.var(nm + 'h') * M32 + Poly.var(nm + 'l')
+            st.mem[KPtr(ptrs[ai].obj, off)] = v
+        E = expr(A)
+        try:
+            outs = K.run_fn(st, name, ptrs)
+        except (Undecided, IRError, KeyError, AssertionError) as e:
+            res.undecided.append('%s: %s' % (type(e).__name__, str(e)[:200]))
+            continue
+        for st2, ret in outs:
+            cs = st2.case
+            if not cs.feasible():
+                continue
+            res.cells += 1
+            if isinstance(ret, KV) and ret.isconst():
+                ret = bool(ret.cval() & 1)
+            if not isinstance(ret, bool):
+                res.undecided.append('the routine returns %r, not a decided boolean' % (ret,))
+                continue
+            lo, hi = cs.bound(E)
+            ks = [k for k in range(-(-lo // P), hi // P + 1)]
+            if ret:
+                if lo == hi and lo % P == 0:
+                    continue
+                # true is right only if every point of the cell has expr = k*p: look for a point where it is not
+                wit = witness_search(cs, E, seed)
+                res.failures.append(dict(lane=0, box={}, witness=wit, constraints=[], kind='value',
+                                         detail='returns true on a cell where the operands differ (expr in [%d, %d]) differs' % (lo, hi)))
+                continue
+            for k in ks:
+                cc2 = cs.copy()
+                cc2.cons.append((E - k * P, '>=0'))
+                cc2.cons.append((E - k * P - 1, '<0'))
+                if not cc2.feasible() or cc2.fm_infeasible():
+                    continue
+                wit = witness_search(cs, Poly(), seed, pred=lambda a, k=k: E.ev(a) == k * P)
+                if wit is None:
+                    # try the direct construction: a point of the sub-cell
+                    wit = witness_search(cc2, Poly(), seed, pred=lambda a: True)
+                res.failures.append(dict(lane=0, box={}, witness=wit, constraints=[], kind='value',
+                                         detail='returns false although the operands can be congruent (expr = %d*p is possible in the cell) differs' % k))
+                break
+    return res
